@@ -278,6 +278,7 @@ CALLBACKS = {
     "cinf": ("cmp", "var p = key(x), q = key(y); return p < q ? -Infinity : (p > q ? Infinity : 0);", False, False),
     "ctable": ("cmp", "return ((key(x) * 7 + key(y) * 3) % 5) - 2;", False, False),
     "cthrow": ("cmp", "throw new TypeError('c');", False, True),
+    "cpush": ("cmp", "if (log.length === 1) a.push('q'); var p = key(x), q = key(y); return p < q ? -1 : (p > q ? 1 : 0);", True, False),
 }
 
 ITER_LOG = "log.push([enc(reg, v, 0), enc(reg, i, 0), arr === a, enc(reg, this, 0)]);"
@@ -373,11 +374,18 @@ def callback_model(name, ctx, logging=True):
             return acc
         raise KeyError(name)
 
+    calls = [0]
+
     def py_cmp(env, this, args):
         x, y = _p3(args, 2)
+        calls[0] += 1
         if logging:
             ctx.log.append([enc(x), enc(y), False, enc(this)])
         p, q = model_key(x), model_key(y)
+        if name == "cpush":
+            if calls[0] == 1:
+                ctx.a.items.append("q")
+            return -1.0 if p < q else (1.0 if p > q else 0.0)
         if name == "cnum":
             return -1.0 if p < q else (1.0 if p > q else 0.0)
         if name == "cdesc":
